@@ -133,6 +133,53 @@ def checkCase (t : IntTy) (π : Policy) (tn pn opn : String) (op : IntOp) (dirN 
         else desc ++ " tags=" ++ ",".intercalate (tagsOf t π op dir a realStored)
       { skipped := false, obligations := obs, nontrivial := nontriv, line := line }
 
+/-- conversions from mpz / mpq / double / float: the exact value is given by the journal
+(`x` = numerator, `y` = denominator or `e` = binary exponent of the denominator).  For mpz and mpq the
+model (`assignMpz`, `assignMpq`) is compared as well; for floating point only the property clauses
+are evaluated on the real output (the float kernel is not modelled). -/
+def checkConv (t : IntTy) (π : Policy) (tn pn opn : String) (dirN : Nat) (a : Operands)
+    (realStored : Int) (realCode : Nat) : CaseOut :=
+  match Dir.ofCode dirN with
+  | none => { skipped := true, obligations := [], nontrivial := false, line := fun _ => "" }
+  | some dir =>
+    let kind := (opn.splitOn ":").headD ""
+    let special := (opn.splitOn ":").getD 1 ""
+    let exact : Exact :=
+      if special == "nan" then .nan else if special == "pinf" then .pinf else if special == "minf" then .minf
+      else if kind == "assignZ" then .frac a.x 1
+      else if kind == "assignQ" then .frac a.x a.y
+      else .frac a.x (pow2 a.e)
+    let realRes := Result.ofNat realCode
+    let st := t.denote π realStored
+    let model : Option (Int × Result) :=
+      if kind == "assignZ" then some (assignMpz t π a.to0 a.x dir)
+      else if kind == "assignQ" then some (assignMpq t π a.to0 a.x a.y dir)
+      else none
+    let modelBad := match model with
+      | some (ms, mr) => !(t.wrap ms == realStored && mr.toNat == realCode && ms == t.wrap ms)
+      | none => false
+    let obs : List String :=
+      (if K4.holdsB realRes st exact then [] else ["holds"]) ++
+      (if K4.directedB dir realRes st exact then [] else ["directed"]) ++
+      (if K4.overflowHoldsB realRes (t.emin π) (t.emax π) exact then [] else ["overflow"]) ++
+      (if storedOK t π realStored realRes then [] else ["stored"]) ++
+      (if modelBad then ["model"] else [])
+    let prec := if kind == "assignF" then 24 else 53
+    let tags : List String :=
+      (if kind == "assignD" || kind == "assignF" then
+        -- the value exceeds max (is below min) but not the floating-point image of max (min)
+        (match exact with
+         | .frac n d =>
+           (if n > t.emax π * d && n ≤ fpUp prec (t.emax π) * d then ["above_max_within_float_rounding_of_max"] else []) ++
+           (if n < t.emin π * d && n ≥ -(fpUp prec (-(t.emin π))) * d then ["below_min_within_float_rounding_of_min"] else [])
+         | _ => [])
+       else [])
+    let line : Unit → String := fun _ =>
+      let ms := match model with | some (m, r) => s!"{t.wrap m},{r.toNat}" | none => "-"
+      let desc := s!"T={tn} P={pn} op={kind} dir={dirN} to0={a.to0} x={a.x} y={a.y} e={a.e} real={realStored},{realCode} model={ms} exact={showExact exact}"
+      if obs.isEmpty then desc else desc ++ " tags=" ++ ",".intercalate tags
+    { skipped := false, obligations := obs, nontrivial := realCode != 1, line := line }
+
 def hexVal (b : UInt8) : Nat :=
   if b ≥ 48 && b ≤ 57 then (b - 48).toNat else if b ≥ 97 && b ≤ 102 then (b - 87).toNat else 0
 
@@ -313,6 +360,15 @@ partial def loop (h : IO.FS.Stream) : M Unit := do
   | ["end", id] => IO.println s!"done {id}"
   | ["c", id, tn, pn, opn, d, to0, x, y, e, st, code] =>
     let s ← get
+    if opn.startsWith "assignZ" || opn.startsWith "assignQ" || opn.startsWith "assignD" || opn.startsWith "assignF" then
+      match s.cfg.ty tn, s.cfg.pol pn with
+      | some t, some π =>
+        let a : Operands := { to0 := tokInt to0, x := tokInt x, y := tokInt y, e := tokNat e }
+        let o := checkConv t π tn pn opn (tokNat d) a (tokInt st) (tokNat code)
+        let key := (opn.splitOn ":").headD ""
+        record s!"{tn} {pn} {key}" id o true
+      | _, _ => IO.println s!"MISMATCH {id} parse {line.trimAscii.toString}"
+    else
     match s.cfg.ty tn, s.cfg.pol pn, parseOp s.cfg opn with
     | some t, some π, some op =>
       let a : Operands := { to0 := tokInt to0, x := tokInt x, y := tokInt y, e := tokNat e }
